@@ -1,6 +1,6 @@
 (** * C05 -- Accepted programs do not go wrong. *)
 From Coq Require Import String ZArith List Bool Arith.
-From NSL Require Import Model.PyNum Model.IR Model.VM Model.WfIR Proofs.WfIRProofs.
+From NSL Require Import Model.PyNum Model.IR Model.VM Model.WfIR Proofs.WfIRProofs Proofs.ScalarSafeProofs.
 From NSLDyn Require Gen_Shapes.
 Import ListNotations.
 
@@ -13,8 +13,30 @@ Theorem C05_no_undefined_operand : forall fuel P fn named st, wf_program_b P = t
     find_func P fn <> None -> ~ bad (invoke fuel P fn named st).
 Proof. exact wf_invoke_sound. Qed.
 
+(** PARTIAL (the scalar fragment, every error class).  For IR programs whose functions consist of scalar loads and stores of
+    globals / arguments / locals, scalar arithmetic, comparisons and logic, casts to scalar types, declarations of scalar
+    locals, two-way branches, calls and value returns, and end in a return (the boolean checker [fn_safe_b], evaluated by
+    the check on the real compiler's IR of every generated scalar program): started on numeric arguments with numeric
+    globals, no execution of the VM model, at any call depth and for any number of steps, fails with TypeError,
+    AssertionError, an internal compiler error, AttributeError or an unhandled opcode; what can still be raised is
+    ZeroDivisionError, the lookup errors excluded by C05_no_undefined_operand, and ValueError / OverflowError of
+    int(nan) / int(inf).  Missing for the full statement: vectors, matrices, arrays, structures (heap values). *)
+Theorem C05_scalar_fragment_safe_partial : forall P fuel fn named st,
+    (forall f G, find_func P f = Some G -> fn_safe_b G = true) -> numeric_globals st ->
+    (forall F a, find_func P fn = Some F -> In a (fn_args F) -> exists v, slookup (fst a) named = Some v /\ numeric v) ->
+    match invoke fuel P fn named st with
+    | Fail e => e <> EType /\ e <> EAssert /\ e <> EICE /\ e <> EAttr /\ e <> EUnhandledOpcode
+    | Done v st' => numeric v /\ numeric_globals st'
+    | _ => True
+    end.
+Proof.
+  intros P fuel fn named st HP Hg Ha. pose proof (invoke_scalar_safe P fuel fn named st HP Hg Ha) as H.
+  destruct (invoke fuel P fn named st); try exact H; try exact I. cbn in H. unfold terr in H. tauto.
+Qed.
+
 Theorem C05_gate_shapes : Gen_Shapes.shape_compiler_checked = true /\ Gen_Shapes.shape_pass_checked = true.
 Proof. split; reflexivity. Qed.
 
 Eval compute in "ASSUMPTIONS C05_no_undefined_operand"%string. Print Assumptions C05_no_undefined_operand.
+Eval compute in "ASSUMPTIONS C05_scalar_fragment_safe_partial"%string. Print Assumptions C05_scalar_fragment_safe_partial.
 Eval compute in "END"%string.
